@@ -13,11 +13,19 @@
    nnfull n i Ll Lr | siteL | siteR | nn
                                 -> get_nn_full_liouvillians()[i] as a flat (Ll·Lr)² array
    run n order dt m | d_0 .. | psi0 | gates | pts | ctrls | keeps
-                                -> dense evolution, see `runDense` below
+                                -> dense evolution, see `runDense` below; the answer ends with
+                                   " # hyp gate=<r> ctrl=<r> pt=<r>": the largest squared residuals of
+                                   the hypotheses of `norm_step` on the shipped tensors
+   lind kind d1 d2 gamma | A [| B]
+                                -> kind siteH | siteD | nnH | nnD: the generated contribution of
+                                   add_site_hamiltonian / add_site_dissipation / add_nn_hamiltonian /
+                                   add_nn_dissipation evaluated on the operators A (B):
+                                   "tr=<#nonzero entries of tr∘L> herm=<#entries violating L[p̃,q̃] = conj L[p,q]> | L flat"
 -/
 import OQuPyVerif.Model.ProtoQI
 import OQuPyVerif.Model.Tebd
 open OQuPyVerif OQuPyVerif.Proto OQuPyVerif.Tebd OQuPyVerif.Generated Finset
+
 
 def showCell (c : Cell) : String :=
   (match c.1 with | .gam => "g" | .lam => "l") ++ toString c.2
@@ -101,6 +109,28 @@ def stepOp (st : Array Nat × Array QI) (o : Op QI) : Array Nat × Array QI :=
 
 def getKV (tab : List (String × Array QI)) (key : String) : Array QI :=
   (tab.lookup key).getD #[]
+
+def normSq (z : QI) : Rat := z.re * z.re + z.im * z.im
+
+def maxRat (l : List Rat) : Rat := l.foldl max 0
+
+/-- largest squared residual of `TracePres2` -/
+def gateResidual (d1 L1 d2 L2 : Nat) (G : Nat → Nat → Nat → Nat → QI) : Rat :=
+  maxRat ((List.range L1).flatMap (fun a => (List.range L2).map (fun b =>
+    normSq ((∑ x ∈ range L1, ∑ y ∈ range L2, trVec d1 x * trVec d2 y * G x y a b)
+      - trVec d1 a * trVec d2 b))))
+
+/-- largest squared residual of `TracePres` -/
+def siteResidual (d L : Nat) (M : Nat → Nat → QI) : Rat :=
+  maxRat ((List.range L).map (fun a =>
+    normSq ((∑ x ∈ range L, trVec d x * M x a) - trVec d a)))
+
+/-- largest squared residual of the cap hypothesis `hT` of `norm_step` for MPO `k` of site `j` -/
+def ptResidual (ch : Chain QI) (j k : Nat) : Rat :=
+  maxRat ((List.range (ch.D j k)).flatMap (fun b => (List.range (ch.L j)).map (fun i =>
+    normSq ((∑ b' ∈ range (ch.D j (k + 1)), ∑ o ∈ range (ch.L j),
+        ch.cap j (k + 1) b' * trVec (ch.d j) o * ch.T j k b b' i o)
+      - ch.cap j k b * trVec (ch.d j) i))))
 
 /-- `run n order dt m | d_0 .. d_{n-1} | psi0 (flat over the physical indices, site 0 most significant)
         | G i t arr.. | G i t arr.. ...            gate kernels, flat (L_i, L_{i+1}, L_i, L_{i+1}) = (out_l, out_r, in_l, in_r)
@@ -189,7 +219,55 @@ def runDense (ws : List String) : Option String := do
   for k in [0:m] do
     st := (ch.stepOps order dt k).foldl stepOp st
     out := out ++ [record (k+1) st]
-  pure (" # ".intercalate out)
+  -- hypotheses of `norm_step` / `norm_one` evaluated on the shipped tensors
+  let gateRes := maxRat (gates.map (fun (key, _) =>
+    match key.splitOn "@" with
+    | [i, t] => match i.toNat?, parseRat? t with
+      | some i, some t => gateResidual (d i) (L i) (d (i+1)) (L (i+1)) (ch.gate i t)
+      | _, _ => 1
+    | _ => 1))
+  let ctrlRes := maxRat ((List.range n).flatMap (fun j => (List.range (m+1)).flatMap (fun k =>
+    ((ch.pre j k).toList ++ (ch.post j k).toList).map (fun M => siteResidual (d j) (L j) M))))
+  let ptRes := maxRat ((List.range n).flatMap (fun j => (List.range m).map (fun k =>
+    if ch.hasPT j k then ptResidual ch j k else 0)))
+  pure (" # ".intercalate out ++ " # hyp gate=" ++ showRat gateRes ++ " ctrl=" ++ showRat ctrlRes
+    ++ " pt=" ++ showRat ptRes)
+
+/-! ### hypotheses of `norm_step` on shipped tensors, generated Liouvillians -/
+
+def qiI : QI := ⟨0, 1⟩
+
+def runLind (ws : List String) : Option String := do
+  let secs := sections ws
+  let hd ← secs[0]?
+  let kind ← hd[0]?
+  let d1 ← (← hd[1]?).toNat?
+  let d2 ← (← hd[2]?).toNat?
+  let γ ← parseQI? (← hd[3]?)
+  let A ← parseQIs? (← secs[1]?)
+  let B ← parseQIs? ((secs[2]?).getD [])
+  let e1 : Nat → Nat → Nat → QI := fun k => if k = 0 then tab2 d1 A else tab2 d1 B
+  let e2 : Nat → Nat → Nat → QI := fun k => if k = 0 then tab2 d2 A else tab2 d2 B
+  let two := kind == "nnH" || kind == "nnD"
+  let n := if two then d1 * d1 * d2 * d2 else d1 * d1
+  let f ←
+    if kind == "siteH" then some (super1Tab qiOfRat qiI γ d1 e1 ChainLindblad.site_hamiltonian)
+    else if kind == "siteD" then some (super1Tab qiOfRat qiI γ d1 e1 ChainLindblad.site_dissipation)
+    else if kind == "nnH" then some (super2Tab qiOfRat qiI γ d1 d2 e1 e2 ChainLindblad.nn_hamiltonian)
+    else if kind == "nnD" then some (super2Tab qiOfRat qiI γ d1 d2 e1 e2 ChainLindblad.nn_dissipation)
+    else none
+  let tab := tabulate2 n n f
+  let L : Nat → Nat → QI := tab2 n tab
+  -- trace covector of the (one- or two-site) Liouville space and the index of the transposed pair
+  let tr : Nat → QI := fun p =>
+    if two then trVec d1 (p / (d2 * d2)) * trVec d2 (p % (d2 * d2)) else trVec d1 p
+  let sw1 (d p : Nat) : Nat := (p % d) * d + p / d
+  let sw : Nat → Nat := fun p =>
+    if two then sw1 d1 (p / (d2 * d2)) * (d2 * d2) + sw1 d2 (p % (d2 * d2)) else sw1 d1 p
+  let trBad := ((List.range n).filter (fun q => (∑ p ∈ range n, tr p * L p q) != 0)).length
+  let hermBad := ((List.range n).flatMap (fun p => (List.range n).filter (fun q =>
+    L (sw p) (sw q) != star (L p q)))).length
+  pure (s!"tr={trBad} herm={hermBad} | " ++ " ".intercalate (tab.toList.map showQI))
 
 /-! ### ops -/
 
@@ -240,6 +318,7 @@ def step (line : String) : String :=
       let f := fullLiouv qiOfRat n i Lr (tab2 Ll sl) (tab2 Lr sr) (tab2 (Ll * Lr) nn)
       pure (" ".intercalate ((tabulate2 (Ll * Lr) (Ll * Lr) f).toList.map showQI))).getD "bad-op"
   | "run" :: rest => (runDense rest).getD "bad-op"
+  | "lind" :: rest => (runLind rest).getD "bad-op"
   | _ => "bad-op"
 
 def main : IO Unit := mainLoop step
